@@ -2,6 +2,8 @@ package rules
 
 import (
 	"go/token"
+	"go/types"
+	"strings"
 
 	"golang.org/x/tools/go/ssa"
 
@@ -222,7 +224,7 @@ func (g *Guard) Establishes(h *ssa.Function) bool {
 					continue
 				}
 				n++
-				if !eng.Cut(h, r.Block(), edges) && !g.isPassingErr(last, h) {
+				if !eng.Cut(h, r.Block(), edges) && !g.isPassingErr(last, h) && !g.phiPassesOnlyBehind(last, h, edges) {
 					ok = false
 				}
 			default:
@@ -242,6 +244,57 @@ func (g *Guard) Establishes(h *ssa.Function) bool {
 		g.memo[h] = 2
 	}
 	return ok
+}
+
+// phiPassesOnlyBehind: the result is a merged variable (single exit, `return x, connErr`): every incoming value is either
+// definitely an error, or the nil constant arriving over an edge that lies behind the guard.
+func (g *Guard) phiPassesOnlyBehind(v ssa.Value, h *ssa.Function, edges eng.EdgeSet) bool {
+	ph, ok := v.(*ssa.Phi)
+	if !ok || len(edges) == 0 {
+		return false
+	}
+	p := g.c.P
+	for i, ev := range ph.Edges {
+		pred := ph.Block().Preds[i]
+		behind := edges[eng.Edge{From: pred, To: ph.Block()}] || eng.Cut(h, pred, edges)
+		switch x := ev.(type) {
+		case *ssa.Const:
+			if x.IsNil() && !behind {
+				return false
+			}
+		case *ssa.Phi:
+			if !g.phiPassesOnlyBehind(x, h, edges) && !behind {
+				return false
+			}
+		case *ssa.Call:
+			if behind {
+				continue
+			}
+			n := eng.CalleeName(&x.Call)
+			if n == "fmt.Errorf" || n == "errors.New" || strings.HasSuffix(n, ".NewConnectionError") {
+				continue
+			}
+			// a wrapper applied to an error on that error's non-nil edge
+			nonNil := false
+			for _, a := range x.Call.Args {
+				if !types.Identical(a.Type(), types.Universe.Lookup("error").Type()) {
+					continue
+				}
+				_, nn := p.NilEdges(h, func(y ssa.Value) bool { return y == a })
+				if len(nn) > 0 && (eng.Cut(h, pred, nn) || nn[eng.Edge{From: pred, To: ph.Block()}]) {
+					nonNil = true
+				}
+			}
+			if !nonNil {
+				return false
+			}
+		default:
+			if !behind {
+				return false
+			}
+		}
+	}
+	return true
 }
 
 // Edges: guard-passed edges in fn (primitive + through establishing helpers: error-like nil, bool true, "" string results).
